@@ -2,6 +2,7 @@
 From Coq Require Import ZArith List Bool Lia.
 Import ListNotations.
 From XO Require Import Slots Strides BufOps Types Format Check LayoutProofs Update UpdateProofs UpdateSize UpdateFrame UpdateAt PartExtent.
+From XO Require Import Update PartExtent PartExtentExact.
 From XO Require ObjectsIndependent.
 Open Scope Z_scope.
 
@@ -56,6 +57,12 @@ Theorem C10_store_into_one_object_leaves_the_others : forall m (objs : list (Obj
   Forall (fun x => let '(o, v, s) := x in ObjectsIndependent.reads m o v s /\ (snd o + s <= woff \/ woff + len bs <= snd o)) objs ->
   Forall (fun x => let '(o, v, s) := x in ObjectsIndependent.reads (wr m woff bs) o v s) objs.
 Proof. exact ObjectsIndependent.store_into_one_object_leaves_the_others. Qed.
+(* EXACT COPIES (an object of the element's class and of exactly its size is copied as it is): every part that is not
+   strictly inside the assigned element -- the element itself, everything above and beside it -- keeps its position
+   and the length of its image; only the parts inside take the source's layout *)
+Theorem C10_exact_copy_moves_only_what_is_inside : forall t v p x v' img, assign_exact t v p x = Some v' -> enc t v = Some img ->
+  forall q, ~ (exists r, r <> [] /\ q = p ++ r) -> part_extent t v' q = part_extent t v q.
+Proof. exact assign_exact_moves_only_inside. Qed.
 Theorem C10_history_sound : forall steps t v size n, check_updates t v size n steps = None -> conforms t v size steps.
 Proof. exact check_updates_sound. Qed.
 
@@ -79,3 +86,4 @@ Print Assumptions C10_frame_of_assignment.
 Print Assumptions C10_frame_of_assignment_positioned.
 Print Assumptions C10_assignment_moves_no_part.
 Print Assumptions C10_store_into_one_object_leaves_the_others.
+Print Assumptions C10_exact_copy_moves_only_what_is_inside.
